@@ -247,6 +247,16 @@ func (c *c12) sth() {
 		if r.Intn(8) != 0 {
 			k = c.keys[r.Intn(len(c.keys))]
 		}
+		// the first iterations sweep every structural defect of the STH fields (classes 10..14 and the valid one) on a client
+		// WITHOUT a verifier and on one with, answered 200 and delivered undisturbed: without a key nothing downstream
+		// (the signature check) hides a missing field check
+		force := -1
+		if it < 12 {
+			force = []int{10, 11, 12, 13, 14, 0}[it%6]
+			if it < 6 {
+				k = nil
+			}
+		}
 		signer := k
 		if signer == nil {
 			signer = c.keys[0]
@@ -256,7 +266,11 @@ func (c *c12) sth() {
 		f.sig = c12DS(hash, c12SigAlg(signer), signer.Sign(hash, verifkit.STHSigInput(0, f.ts, f.size, f.root)))
 		class := "valid"
 		body := []byte(nil)
-		switch r.Intn(42) {
+		pick := r.Intn(42)
+		if force >= 0 {
+			pick = force
+		}
+		switch pick {
 		case 0, 1, 2, 3, 4, 5, 6, 22, 23, 24, 25, 26, 27, 28, 29, 30, 31, 32, 33, 34, 35, 36, 37, 38, 39, 40, 41:
 		case 7:
 			class = "foreign-key-signature"
@@ -333,8 +347,12 @@ func (c *c12) sth() {
 			body = f.json()
 		}
 		status := c12Statuses[r.Intn(len(c12Statuses))]
+		inject := r.Intn(30)
+		if force >= 0 {
+			status, inject = 200, 29
+		}
 		rsp := c12Rsp{status: status, body: body, hdr: c12HeaderPool[r.Intn(len(c12HeaderPool))]}
-		switch r.Intn(30) {
+		switch inject {
 		case 0:
 			rsp.netErr, class = true, class+"+transport-error"
 		case 1:
